@@ -191,24 +191,30 @@ func (c *c19Case) Oracle() (bool, string) {
 }
 
 func (c *c19Case) Sx() string {
-	if c.Fatal != "" || c.Mode != "db" {
+	if c.Fatal != "" {
 		return ""
 	}
-	var steps []string
-	for i, s := range c.Steps {
-		kind := 0
-		switch s.Op {
-		case "rotate":
-			kind = 1
-		case "compact":
-			kind = 2
-		case "reopen":
-			kind = 3
+	if c.Mode == "db" {
+		steps, ok := sxDbSteps(c.Opts, c.Steps)
+		if !ok || len(c.After) != len(c.Steps) {
+			return ""
 		}
-		o := c.After[i]
-		steps = append(steps, sxL(sxI(kind), sxI(o.Tables), sxI(o.Maps), sxI(o.FDs)))
+		var after []string
+		for _, o := range c.After {
+			after = append(after, sxL(sxI(o.Maps), sxI(o.FDs), sxI(o.Gor)))
+		}
+		return sxL("n0", sxBool(false), steps, sxList(after), sxL(sxI(c.Closed.Maps), sxI(c.Closed.FDs), sxI(c.Closed.Gor)))
 	}
-	return sxL(sxList(steps), sxI(c.Closed.Maps), sxI(c.Closed.FDs))
+	if c.Mode != "reader" {
+		return ""
+	}
+	code := map[string]int{"full": 0, "abandoned": 1, "range": 2, "mmapseek": 3, "seqread": 4, "writer": 5}
+	var ops, after []string
+	for i, sc := range c.Scans {
+		ops = append(ops, sxI(code[sc]))
+		after = append(after, sxL(sxI(c.After[i].FDs), sxI(c.After[i].Maps)))
+	}
+	return sxL("n1", sxList(ops), sxList(after), sxL(sxI(c.Closed.FDs), sxI(c.Closed.Maps)))
 }
 
 func (c *c19Case) Nontrivial() bool { return len(c.Steps) >= 5 || len(c.Scans) >= 3 }
